@@ -3,6 +3,7 @@ import UberjobModel.Lemmas.CacheHistory
 import UberjobModel.Lemmas.ExecFinal
 import UberjobModel.Lemmas.StaleExec
 import UberjobModel.Props.C04
+import UberjobModel.Lemmas.ExecProd
 /-!
 # C05 — exactly the out-of-date stored values are rebuilt; a repeated run does nothing
 
@@ -155,6 +156,23 @@ theorem C05_end_to_end {P : Input} {w0 : World} {F : Option Int} {c0 : Int} (S :
     obtain ⟨hq1, hq2⟩ := Exec.mem_linOf.mp hq
     obtain ⟨hk1, hk2⟩ := Exec.mem_linOf.mp hk
     exact I.order q k tq tk hne hq1 hk1 hq2 hk2 hr
+
+open Uberjob.Phys Uberjob.Exec in
+/-- **With producers** (`Model/ExecProd.lean`), in every reachable state of every schedule: a store is given a new value — by its
+    write node, or, a dependent source, by its producer — only if it is registered and out of date; so an up-to-date
+    dependent source is never rewritten (its private producer does not even run: `producer_kept_stale`).  That nothing is
+    out of date after a normal return is the last clause of `C03_end_to_end_prod`. -/
+theorem C05_end_to_end_prod_only_stale {P : Input} {pr : Nat → Option Nat} {w0 : World} {F : Option Int} {c0 : Int}
+    (S : SetupP P pr w0 F c0) {cfg : Engine.Cfg} {s : Engine.St} (h : Engine.Reach (engineGraph P) cfg s) :
+    (∀ i, Tch pr s.okd i → (∃ sr, P.regOf i = some sr) ∧ isStale P.toLPlan w0 F i = true) ∧
+    (∀ j d, pr j = some d → code (.orig j) ∈ s.begun → isStale P.toLPlan w0 F d = true) := by
+  constructor
+  · intro i ht
+    obtain ⟨h1, h2⟩ := tch_stale S h (xinvP_reach S h) ht
+    exact ⟨h1, by rw [← S.stale]; exact h2⟩
+  · intro j d hp hb
+    rw [← S.stale]
+    exact producer_kept_stale S hp (begun_builtP S h hb).1
 
 section RepeatedRun
 open Uberjob.Phys Uberjob.Exec
